@@ -7,6 +7,7 @@ import (
 	"strings"
 	"testing"
 
+	"github.com/spikeekips/mitum/util"
 	"github.com/spikeekips/mitum/zzverif/vlib"
 )
 
@@ -29,7 +30,7 @@ type c19Vio struct {
 	detail string
 }
 
-func c19Compare(m *vfModel, got, want vfAnswers) []c19Vio {
+func c19Compare(mode string, m *vfModel, got, want vfAnswers) []c19Vio {
 	var vios []c19Vio
 
 	for _, q := range vfSortedKeys(got, want) {
@@ -50,8 +51,8 @@ func c19Compare(m *vfModel, got, want vfAnswers) []c19Vio {
 
 		vios = append(vios, c19Vio{
 			sig: map[string]any{
-				"kind": "read-mismatch", "read": vfMethod(q), "part": vfPart(q),
-				"class": vfClass(g, gok, w, wok), "where": vfWhere(m, q),
+				"kind": "read-mismatch", "cache": mode, "read": vfMethod(q), "part": vfPart(q),
+				"class": vfClass(m, g, gok, w, wok), "where": vfWhere(m, q),
 			},
 			detail: fmt.Sprintf("%s = %s, the committed chain [%s] (first %d in the permanent database) says %s",
 				q, vfShow(g, gok), m.ids(), m.merged, vfShow(w, wok)),
@@ -68,6 +69,7 @@ type c19Search struct {
 	maxblocks int
 	depth     int
 	name      string
+	mode      string // state caches: "none", "per-block" (a new cache for every block writer), "shared" (one for all)
 	counter   *int
 }
 
@@ -76,6 +78,10 @@ type c19Search struct {
 func (s *c19Search) execute(hist []string) (vios []c19Vio, hidden string, outcome string) {
 	db := s.env.newDB(s.cachesize)
 	defer db.close()
+
+	if s.mode == "shared" {
+		db.shared = util.NewLFUGCache[string, [2]interface{}](s.cachesize)
+	}
 
 	p := vfNewPure(s.cachesize, s.maxblocks)
 
@@ -121,14 +127,14 @@ func (s *c19Search) execute(hist []string) (vios []c19Vio, hidden string, outcom
 		got := s.env.readAll(db.center, d)
 		want := s.env.expect(&p.m, d, true)
 
-		vios = append(vios, c19Compare(&p.m, got, want)...)
+		vios = append(vios, c19Compare(s.mode, &p.m, got, want)...)
 		s.r.Add("reads", int64(len(got)))
 
 		p.afterReads(d)
 
 		hidden = db.hidden(nil)
 
-		if h := p.hidden(); h != hidden {
+		if h := p.hidden(); h != hidden && s.mode != "shared" {
 			s.r.Add("hidden_state_prediction_mismatches", 1)
 			s.r.Sample(map[string]any{"hidden_state_prediction_mismatch": strings.Join(hist, "/"), "real": hidden, "predicted": h})
 		}
@@ -213,6 +219,55 @@ func (s *c19Search) run() {
 	}
 }
 
+// tree enumerates every history up to the depth without state merging (used
+// for the shared state cache, whose content is not part of the state key).
+func (s *c19Search) tree(hist []string, p *vfPure) {
+	r := s.r
+
+	if len(hist) >= s.depth {
+		return
+	}
+
+	for _, ev := range p.enabled() {
+		h := append(append([]string(nil), hist...), ev)
+		id := s.name + "/" + strings.Join(h, "/")
+
+		idx := *s.counter
+		*s.counter++
+
+		if r.Mine(idx) && r.Want(id) && !r.Expired() {
+			vios, _, outcome := s.execute(h)
+
+			r.Eval()
+			r.Transition()
+			r.Trace()
+			r.State(id)
+			r.Outcome(outcome)
+
+			if len(vios) > 0 {
+				r.Outcome("violation")
+			}
+
+			for _, v := range vios {
+				r.Violation(id, v.sig, v.detail, map[string]any{"search": s.name, "history": h})
+			}
+
+			if idx%997 == 0 {
+				r.Sample(map[string]any{"history": id, "violations": len(vios), "outcome": outcome})
+			}
+		}
+
+		child := p.clone()
+		child.apply(s.env, ev)
+
+		if r.Mine(idx) && child.temps() > 0 && child.m.merged > 0 {
+			r.Nontrivial(id)
+		}
+
+		s.tree(h, child)
+	}
+}
+
 func TestVerifC19(t *testing.T) {
 	r := vlib.Start("C19")
 	defer r.Finish()
@@ -221,6 +276,7 @@ func TestVerifC19(t *testing.T) {
 
 	depth := vlib.Pick(r, 5, 7)
 	maxblocks := vlib.Pick(r, 4, 5)
+	shareddepth := vlib.Pick(r, 4, 5)
 
 	r.Rule("BFS over event histories (alphabet: write+commit the next block of kind S/F/P/O - genesis G first -, abandoned block write U, mergePermanent m, MergeAllPermanent M, RemoveBlocks(h) for every h from one below the lowest temp to one above the last block, cleanRemoved(0) c) " +
 		"to the stated depth with at most the stated number of committed blocks, once without and once with state caches (permanent + block write, size 16); a state is the committed chain (block ids) + how many blocks are in the permanent database + temps waiting for cleanup + prefix storages of the block-write area + predicted permanent state cache + per-height write counters; " +
@@ -230,13 +286,24 @@ func TestVerifC19(t *testing.T) {
 	r.Assume("earlier steps of a replayed history only repeat the State(key) reads (the only reads that change the real objects: permanent state cache)")
 	r.Set("depth", depth)
 	r.Set("max_blocks", maxblocks)
-	r.Set("cache_sizes", []int{0, 16})
+	r.Set("cache_modes", []string{"none", "per-block(16)", "shared(16)"})
+	r.Set("depth_shared_cache", shareddepth)
 
 	counter := 0
 
-	for _, cachesize := range []int{0, 16} {
-		s := &c19Search{r: r, env: env, cachesize: cachesize, maxblocks: maxblocks, depth: depth, name: fmt.Sprintf("cache%d", cachesize), counter: &counter}
+	for _, c := range []struct {
+		mode      string
+		cachesize int
+	}{{"none", 0}, {"per-block", 16}} {
+		s := &c19Search{r: r, env: env, cachesize: c.cachesize, maxblocks: maxblocks, depth: depth, name: "cache-" + c.mode, mode: c.mode, counter: &counter}
 		s.run()
+	}
+
+	r.Set("transitions_bfs", counter)
+
+	{
+		s := &c19Search{r: r, env: env, cachesize: 16, maxblocks: maxblocks, depth: shareddepth, name: "cache-shared", mode: "shared", counter: &counter}
+		s.tree(nil, vfNewPure(16, maxblocks))
 	}
 
 	r.Set("transitions_total", counter)
